@@ -4,7 +4,7 @@
    correspondence shards (C18/Corr.v).  Carrier: R; [cx] = R * R. *)
 From Coq Require Import Reals List Bool Arith.
 From Verif Require Import Base.Num Lib.Axis C18.Model C18.ModelW C18.ProofsGrid C18.ProofsDFT C18.ProofsCx
-  C18.ProofsAxis C18.ProofsFT C18.ProofsTrue C18.ProofsHC C18.ProofsTrueHC C18.ProofsW.
+  C18.ProofsAxis C18.ProofsFT C18.ProofsTrue C18.ProofsHC C18.ProofsTrueHC C18.ProofsSum C18.ProofsW.
 Import ListNotations.
 Local Open Scope R_scope.
 
@@ -232,3 +232,22 @@ Theorem dft_inverse_current_code_refuted :
   /\ dft_inverse_status true true false true true false [5]%nat [0]%nat = SValueErr
   /\ dft_inverse_status true true false true true false [4]%nat [0]%nat = SOk.
 Proof. exact dft_inverse_status_examples. Qed.
+
+(* ------------------------------------------------------------------ *)
+(* F3: PHASE CORRECTNESS (what a round trip cannot see: a consistently wrong phase cancels
+   between the transform and its inverse).  Along one axis, for every length n >= 2 (even
+   and odd), shifted or unshifted, both signs, every grid offset x0 and cell size s, entry k of
+   FourierTransform(x) IS
+       kernel(f_k) * sum_j x_j exp(sg i x_j xi_k),     x_j = x0 + j s,
+   i.e. pre-processing (-1)^j resp. exp(-+ i pi (1-1/n) j), the DFT twiddles and the post-
+   processing phase exp(sg i x0 xi_k) combine to exactly the Fourier kernel at the
+   reciprocal grid point xi_k.  (cis_true a = exp(i pi a) and coord(recip_axis 1 ..) = xi_k/pi.) *)
+Theorem ft_equals_defining_sum : forall (a : @axis R) (sh : bool) (sg : R) (x : list (@cx R)) (k : nat),
+  sg = 1 \/ sg = -1 -> (2 <= a_n a)%nat -> stride a <> 0 -> length x = a_n a -> (k < a_n a)%nat ->
+  nth k (ft_forward PI (sqrt (2 * PI)) cis_true (mk_ft [a] [0%nat] [sh] sg false) x) c0 =
+  cscal (kernel PI (sqrt (2 * PI)) cis_true (stride a) (freq (a_n a) (a_n a) sh k))
+        (rsum c0 cadd (fun j => cmul (nth j x c0)
+                  (cis_true (sg * (a_min a + INR j * stride a) * coord (recip_axis 1 a (Some sh) false) k)))
+              (a_n a)).
+Proof. exact (ft_is_defining_sum cis_true cis_true_add cis_true_0 cis_true_2 cis_true_prim PI (sqrt (2 * PI))). Qed.
+Print Assumptions ft_equals_defining_sum.
